@@ -1,6 +1,7 @@
 import Just.Json
 import Just.Model.Quote
 import Just.Generated.Tables
+import Just.Model.Lexer
 open Lean Just
 
 /-- first entry whose key occurs in `k` (the fake shell's matching rule) -/
@@ -169,6 +170,16 @@ def handleEvaluate (j : Json) : Except String Json := do
   | .ok () => return Json.mkObj [("values", toJson values), ("backticks", toJson bts), ("evaluated", toJson evals)]
   | .error e => return Json.mkObj [("error", toJson e), ("backticks", toJson bts), ("evaluated", toJson evals)]
 
+def tokJson (t : Lexer.Tok) : Json :=
+  Json.mkObj [("kind", t.kind.name), ("offset", toJson t.offset), ("length", toJson t.length),
+    ("line", toJson t.line), ("column", toJson t.column)]
+
+def handleLex (j : Json) : Except String Json := do
+  let src ← j.getObjValAs? String "src"
+  match Lexer.tokenize src.toList with
+  | .ok toks => return Json.mkObj [("tokens", Json.arr (toks.map tokJson).toArray)]
+  | .error e => return Json.mkObj [("error", e.kind.name), ("token", tokJson e.tok)]
+
 def handle (line : String) : Json :=
   match Json.parse line with
   | .error e => Json.mkObj [("fatal", s!"parse: {e}")]
@@ -190,6 +201,7 @@ def handle (line : String) : Json :=
       | "imports" => handleImports j
       | "evaluate" => handleEvaluate j
       | "shsplit" => handleShSplit j
+      | "lex" => handleLex j
       | _ => throw s!"unknown op {op}"
     match r with
     | .ok v => v
